@@ -347,6 +347,29 @@ func vFrameQuietLogger() logging.LeveledLogger {
 	return lf.NewLogger("verif")
 }
 
+// vFrameTPCBuf: one packet queued in a tcpPacketConn, read through ReadFrom with a caller buffer of length bl and
+// capacity cp.  The caller sees b[:len(b)] only: a packet that does not fit its LENGTH must not be handed over in part.
+func vFrameTPCBuf(o *vOut, bl, cp, pl, seed int) string {
+	conn := &vFrameConn{}
+	t := newTCPPacketConn(tcpPacketParams{ReadBuffer: 8, LocalAddr: conn.LocalAddr(), Logger: vFrameQuietLogger()})
+	defer func() { _ = t.Close() }()
+	pkt := vFrameBytes(seed, pl)
+	t.recvChan <- streamingPacket{Data: pkt, RAddr: conn.RemoteAddr()}
+	b := make([]byte, bl, cp)
+	ctx, cancel := context.WithTimeout(context.Background(), 5*time.Second)
+	defer cancel()
+	n, _, err := t.readFromContext(ctx, b)
+	if err != nil {
+		return fmt.Sprintf("n=%d e=%s d=%s", n, vFrameErrKind(err), vFrameDigest(nil))
+	}
+	m := n
+	if m > len(b) {
+		m = len(b)
+		o.stat("tpcbuf.n_beyond_len")
+	}
+	return fmt.Sprintf("n=%d e=ok d=%s", n, vFrameDigest(b[:m]))
+}
+
 // vFrameDrain reads from a tcpPacketConn until the first error.
 func vFrameDrain(t *tcpPacketConn, maxPackets int) []string {
 	var res []string
@@ -647,6 +670,15 @@ func vFrameExec(o *vOut, t []string) string {
 			return "bad-op"
 		}
 		return vFrameWrite(o, l, seed, t[4])
+	case t[1] == "tpcbuf" && len(t) == 6:
+		bl, e1 := strconv.Atoi(t[2])
+		cp, e2 := strconv.Atoi(t[3])
+		pl, e3 := strconv.Atoi(t[4])
+		seed, e4 := strconv.Atoi(t[5])
+		if e1 != nil || e2 != nil || e3 != nil || e4 != nil || bl < 0 || cp < bl || pl < 0 {
+			return "bad-op"
+		}
+		return vFrameTPCBuf(o, bl, cp, pl, seed)
 	case t[1] == "read" && len(t) == 5:
 		blen, capacity, ok := vFrameCaps(t[2])
 		endErr, ok2 := vFrameEnd(t[3])
@@ -1053,6 +1085,15 @@ func vFrameGenOps(o *vOut, r *vRand, thorough bool, _ []string, emit func(string
 			bl = r.intn(c + 1)
 		}
 		emit(fmt.Sprintf("frame readp %d:%d %s %s %s %s", bl, c, vFramePick2(r, vFrameEnds), ps, vFrameKeep(r, total), vFrameCuts(r, total)))
+	}
+	for _, pl := range []int{0, 1, 2, 7, 8, 9, 100, 1200, 8191, 8192} { // caller buffers around the packet length, len <= cap
+		for _, d := range []int{-9, -1, 0, 1, 50} {
+			for _, extra := range []int{0, 1, 64, 9000} {
+				if bl := pl + d; bl >= 0 {
+					emit(fmt.Sprintf("frame tpcbuf %d %d %d %d", bl, bl+extra, pl, r.intn(250)))
+				}
+			}
+		}
 	}
 	ng := 2000
 	if thorough {
